@@ -170,3 +170,14 @@ Example C06_accepted_total_instance :
   check_C06 (CIntAll [2;3]%nat 1 (1#4) [1;2;3;4;5;6]%Q [(21#4)%Q]) = true.
 Proof. exact accepted_total_instance. Qed.
 Print Assumptions C06_accepted_total_instance.
+(* transfer: every observed cumulative value is the cell length times (half the cell's own value plus
+   the sum of the preceding cells on its own grid line) *)
+Theorem C06_accepted_cumulative : forall sh nvdim ax h vals obs i,
+  check_C06 (CIntCum sh nvdim ax h vals obs) = true ->
+  inb (sh ++ [nvdim]) i = true ->
+  (nth ax i 0%nat < length (line (sh ++ [nvdim]) (arr sh nvdim vals) ax i))%nat ->
+  nth (ravel (sh ++ [nvdim]) i) (qcl obs) 0%Qc
+  = ((nth (nth ax i 0%nat) (line (sh ++ [nvdim]) (arr sh nvdim vals) ax i) 0%Qc / f2 QcOps
+      + fsum QcOps (firstn (nth ax i 0%nat) (line (sh ++ [nvdim]) (arr sh nvdim vals) ax i))) * qc h)%Qc.
+Proof. exact accepted_cumulative. Qed.
+Print Assumptions C06_accepted_cumulative.
